@@ -172,6 +172,10 @@ def show_tree(t):
     """same text as the driver's `parse.tree`"""
     if t == 'blank' or t is None:
         return 'blank'
+    if not isinstance(t, (tuple, list)) or not t or not isinstance(t[0], str):
+        # a semantic action the harness does not know (a production added to the grammar) produced a
+        # foreign object inside the tree: show it as such (it cannot agree with any model tree)
+        return '(opaque %s)' % enc_str(type(t).__name__)
     k = t[0]
     if k == 'num':
         return '(num %s %s %s)' % (t[1], enc_str(t[2]) if t[2] != '' or t[1] in () else '_', enc_str(t[3]) if t[3] != '' else '_')
@@ -193,7 +197,7 @@ def show_tree(t):
         return '(cell %s)' % enc_str(t[1])
     if k == 'range':
         return '(range %s %s)' % (enc_str(t[1]), enc_str(t[2]))
-    raise ValueError(t)
+    return '(opaque %s)' % enc_str(str(k))
 
 
 def _seq(items):
